@@ -602,9 +602,12 @@ def convert_and_observe(hooks, loaded, target, src_node):
         o.error = '%s: %s' % (type(e).__name__, str(e)[:300])
     o.events = loaded.support.log[n0:]
     o.inst = hooks.inst
+    # keyed by identity: malt's cache is keyed by code *equality*, so a function of another module with an equal
+    # code object (same text at the same line) is served by the factory made from that other source; such a
+    # conversion has no transformation of its own to compare with and is left out of the correspondence
     if hooks.last_transform is not None:
-        hooks.by_code[fn.__code__] = hooks.last_transform
-    o.transform = hooks.by_code.get(fn.__code__)
+        hooks.by_code[id(fn.__code__)] = (fn.__code__, hooks.last_transform)
+    o.transform = hooks.by_code.get(id(fn.__code__), (None, None))[1]
     return o
 
 
@@ -792,12 +795,19 @@ def oracle(r, loaded, o, get_all, set_var, decos, calls_budget=3):
     if not inspect.isfunction(cf) or inspect.ismethod(cf):
         fails.append(('not-a-function', 'to_graph returned %r' % type(cf)))
         return fails
-    # signature
+    # signature: names, kinds, order, defaults (the property text does not speak about annotations: they are
+    # re-evaluated by the regenerated def; differences are recorded as an observation only)
     try:
         s0 = inspect.signature(fn, follow_wrapped=False)
         s1 = inspect.signature(cf, follow_wrapped=False)
-        if s0 != s1:
+
+        def bare(sg):
+            return sg.replace(parameters=[q.replace(annotation=inspect.Parameter.empty) for q in sg.parameters.values()],
+                              return_annotation=inspect.Signature.empty)
+        if bare(s0) != bare(s1):
             fails.append(('signature', 'original %s, converted %s' % (s0, s1)))
+        elif s0 != s1:
+            o.annotation_difference = 'original %s, converted %s' % (s0, s1)
     except Exception as e:   # noqa
         fails.append(('signature', 'inspect.signature raised %s: %s' % (type(e).__name__, e)))
     # defaults identity
@@ -993,6 +1003,7 @@ def _check(run, tmp):
     failures = []       # dicts
     n_kinds = {}
     out_of_guarantee = []
+    annotation_notes = []
     try:
         items = []
         for name, src in CORPUS:
@@ -1045,6 +1056,8 @@ def _check(run, tmp):
                 idx = len(case_info)
                 fails = oracle(r, loaded, o, get_all, set_var, decos, 3 if run.tier == 'quick' else 6)
                 run.count(getattr(o, 'ncalls', 0))
+                if getattr(o, 'annotation_difference', None):
+                    annotation_notes.append(o.annotation_difference)
                 key = (spec['kind'], tuple(sorted(m for _, m in spec['closure'])),
                        None if not spec['sig'] else (len(spec['sig']['posonly']), len(spec['sig']['args']),
                                                      bool(spec['sig']['vararg']), len(spec['sig']['kwonly']),
@@ -1097,6 +1110,8 @@ def _check(run, tmp):
     run.extra['kinds'] = n_kinds
     run.extra['out_of_guarantee_observations'] = out_of_guarantee
     run.extra['functions_converted'] = len(case_info)
+    if annotation_notes:
+        run.extra['annotation_differences_observed'] = annotation_notes[:5]
 
     # ---- model vs implementation, evaluated inside Coq
     corr_bad = None
